@@ -88,5 +88,10 @@ def finish(res, d, out, name):
     meta["validation"] = res
     json.dump(meta, open(os.path.join(dst, "meta.json"), "w"), indent=1)
     print(json.dumps({k: v for k, v in res.items() if not k.endswith("tail") and not k.startswith("demo_tail")}, indent=1))
+    # disk space is limited: the scratch worktree and its build output go as soon as we are done
+    if "--keep" not in sys.argv:
+        wt = os.path.join(d, "wt")
+        subprocess.run(["git", "-C", "/repo", "worktree", "remove", "--force", wt], stdout=subprocess.DEVNULL, stderr=subprocess.DEVNULL)
+        shutil.rmtree(wt, ignore_errors=True)
 
 main()
